@@ -360,7 +360,9 @@ func (d *diff) CompareDiff(ctx context.Context, dl Remote) (newIds, ourChangedId
 
 func (d *diff) compareResults(dctx *diffCtx, r Range, myRes, otherRes RangeResult) {
 	// both hash equals - do nothing
-	if bytes.Equal(myRes.Hash, otherRes.Hash) {
+	// (a side that has no division for this range answers with its elements and no hash at all,
+	// which must not be mistaken for the missing hash of an empty range: compare the counts too)
+	if bytes.Equal(myRes.Hash, otherRes.Hash) && myRes.Count == otherRes.Count {
 		return
 	}
 
